@@ -890,6 +890,13 @@ func (r *relayRig) events(add func(sim.Event)) {
 		p := p
 		if p.cur != nil && !p.done {
 			add(sim.Event{Key: fmt.Sprintf("backend.emit/p%03d", i), Actor: fmt.Sprintf("backend:%d", i), Fire: func() {
+				if p.end.Peer().IsClosed() {
+					// the proxy has closed this connection: a backend that goes on writing gets a reset and
+					// stops. (Without this, a backend waiting for the proxy to take in its last piece
+					// before resetting waited for ever, its event always on offer, and the clock never moved.)
+					p.out, p.done = nil, true
+					return
+				}
 				if len(p.out) > 0 {
 					p.end.Send(p.out[0])
 					p.out = p.out[1:]
